@@ -2004,10 +2004,24 @@ class IMAPClientCommand:
         mbox_name = self._p_simple_string("inbox", silent=True)
         if mbox_name is None:
             mbox_name = self._p_astring()
-        if mbox_name != "":
-            return os.path.normpath(mbox_name)
-        else:
+        if mbox_name == "":
             return mbox_name
+        mbox_name = os.path.normpath(mbox_name)
+
+        # Mailbox names are paths relative to the user's mail directory (with
+        # at most one leading "/", our hierarchy prefix). After normalization
+        # a name that still climbs out with ".." or is still anchored at the
+        # file system root ("//x") can only name files outside the mail
+        # directory: refuse it.
+        #
+        rel_name = mbox_name[1:] if mbox_name[0] == "/" else mbox_name
+        if (
+            rel_name[:1] == "/"
+            or rel_name == ".."
+            or rel_name[:3] == "../"
+        ):
+            raise BadSyntax(value=f"Invalid mailbox name '{mbox_name}'")
+        return mbox_name
 
     #######################################################################
     #
